@@ -85,6 +85,10 @@ class InputModel:
         return out
 
 
+DBG_GLUE = '''        ("op", "vars_dbg") => { let v: op::Variables = serde_json::from_value(arg).map_err(|e| e.to_string())?; Ok(format!("{:?}", v)) }
+'''
+
+
 def forbidden_variants(model, vars_, assignment):
     """Assignments that are INVALID for the declared types: null / missing key at every non-null position reachable in
     `assignment`, a null / second / no member in every @oneOf value. Yields (description, path, variant)."""
@@ -220,7 +224,7 @@ def run(tier):
     for o in ops:
         for os_ in optsets:
             mods.append(dict(o, opts=os_))
-    resps = generate([gen_request(sdl, gql.render_doc(m["doc"]), dict(DEFAULT_OPTS, **m["opts"])) for m in mods])
+    resps = generate([gen_request(sdl, gql.render_doc(m["doc"]), dict(DEFAULT_OPTS, variables_derives="Deserialize,Debug", **m["opts"])) for m in mods])
     farm = Farm("c04")
     for m, r in zip(mods, resps):
         m["label"] = {"what": m["what"], "options": m["opts"], "query": gql.render_doc(m["doc"])}
@@ -228,7 +232,7 @@ def run(tier):
             rep.violation("generation_failed", m["label"], r.get("msg"))
             m["case"] = None
             continue
-        m["case"] = farm.add(Case(r["tokens"], [("op", "Op")], prelude="pub type Date = String; pub type date_time = String; pub type DateTime = String;", resp=False))
+        m["case"] = farm.add(Case(r["tokens"], [("op", "Op")], prelude="pub type Date = String; pub type date_time = String; pub type DateTime = String;", resp=False, extra_glue=DBG_GLUE))
     farm.build()
     model = InputModel(schema, max_depth=1)
     outcomes = {}
@@ -245,9 +249,20 @@ def run(tier):
     def flush():
         if not pending:
             return
-        res = farm.run([{"case": m["case"], "module": "op", "what": "vars", "arg": a if m["vars"] else None} for m, a, _ in pending])
+        res = farm.run([{"case": m["case"], "module": "op", "what": "vars_dbg" if (neg and neg[0] == "__dbg__") else "vars",
+                         "arg": a if m["vars"] else None} for m, a, neg in pending])
         for (m, assignment, neg), r in zip(pending, res):
             key = m["case"]
+            if neg is not None and neg[0] == "__dbg__":
+                # every enum string of an assignment is a schema value: it must arrive in its own variant, not in the catch-all
+                # (otherwise the value a user builds with that variant is sent under another name)
+                if r and r.get("ok") and "Other(" in r["out"]:
+                    dkey = (m["case"], "dbg")
+                    per[dkey] = per.get(dkey, 0) + 1
+                    if per[dkey] <= 3:
+                        rep.violation("schema_enum_value_in_catch_all_variant", dict(m["label"], assignment=assignment), r["out"][:400])
+                outcomes["variant_checked"] = outcomes.get("variant_checked", 0) + 1
+                continue
             if neg is not None:
                 desc, path = neg
                 if not r or not r.get("ok"):
@@ -344,6 +359,7 @@ def run(tier):
         for m in live:
             m["dev"], m["nvec"] = dev, len(vecs)
             pending.extend((m, a, None) for a in vecs)
+            pending.extend((m, a, ("__dbg__", None)) for a in vecs[:(40 if tier == "quick" else 400)] if m["vars"])
             pending.extend((m, variant, (desc, path)) for desc, path, variant in forb)
             n_assign += len(vecs)
             n_forbidden += len(forb)
